@@ -38,7 +38,7 @@ func Run(r *vk.Run) {
 	r.Rule = "structured values: every wire type (Header, SignedHeader, Data, SignedData, Metadata, State, batch-cursor list) drawn by structural generators (nil vs empty byte strings and lists, 0/boundary/max integers, 0-300 txs of 0-70000 bytes, ed25519/secp256k1/RSA/ECDSA signers, harness-signed and unsigned), each sent through every path (MarshalBinary/P2P, DA blob, block store on MemDS, gob cache files, State via store, batch codec via store metadata) - all non-trivial, distinct by type + sha256 of the reference encoding; commitment cases distinct by the tx list; decoder inputs: enumerated 1-/2-byte strings, random bytes, random protobuf-framed field streams and 1-3 stacked mutations (bit flips, truncations, slice deletion, garbage/valid-encoding appended or inserted, length-varint edits incl. absurd and non-minimal, field reorder/duplicate/delete, varint value edits, foreign/mistyped fields, tag edits, the same inside nested messages, 4-byte length edits of batch encodings, mutated gob cache files) of reference encodings - non-trivial unless empty or byte-identical to a valid encoding, distinct by sha256 of the input"
 	r.Assume("the datastore under the block store is the in-memory MemDS double")
 	r.Assume("libp2p key (un)marshalling, encoding/gob, google.golang.org/protobuf and crypto/sha256 are trusted; the reference encoder is hand-written from proto/evnode/v1/*.proto")
-	r.Assume("custom signature payload providers are not varied (default: signature over the header's protobuf encoding)")
+	r.Assume("signature payloads: the default provider on every signed header; one custom provider (domain tag || header encoding) on a third of the signed block headers, re-attached to the decoded header the way the node does; the node's own re-attachment sites (block/store.go, sync.go, retriever.go) are not exercised here")
 	r.Assume("strings are valid UTF-8 (proto3 string fields cannot carry anything else; see observation_invalid_utf8)")
 
 	nCases := r.N(9000, 400000)
@@ -56,7 +56,6 @@ func Run(r *vk.Run) {
 	r.Require("golden-hash", 30)
 	r.Require("golden-decode", 60)
 	r.Require("golden-reference", 60)
-	r.Require("golden-cachefile", 2)
 	r.Require("commit-metadata-independent", int64(nCommit))
 	r.Require("commit-order-sensitive", int64(nCommit/2))
 	r.Require("commit-split-sensitive", int64(nCommit))
@@ -116,6 +115,7 @@ func totality(ctx context.Context, r *vk.Run, nInputs int) {
 
 	var mu sync.Mutex
 	accepted, rejected, classes := map[string]int64{}, map[string]int64{}, map[string]int64{}
+	obsNotes, obsWit := map[string]int64{}, map[string]string{}
 	sampleQ := []childSample{}
 
 	work := make(chan shardPlan)
@@ -135,6 +135,12 @@ func totality(ctx context.Context, r *vk.Run, nInputs int) {
 					}
 					for k, v := range rep.Mutations {
 						classes[k] += v
+					}
+					for k, v := range rep.Notes {
+						obsNotes[k] += v
+						if _, ok := obsWit[k]; !ok && rep.NoteWit[k] != "" {
+							obsWit[k] = rep.NoteWit[k]
+						}
 					}
 					if len(sampleQ) < 64 {
 						sampleQ = append(sampleQ, rep.Samples...)
@@ -182,6 +188,11 @@ func totality(ctx context.Context, r *vk.Run, nInputs int) {
 	r.Set("decoder_accepted", accepted)
 	r.Set("decoder_rejected", rejected)
 	r.Set("decoder_input_classes", classes)
+	// observations without a verdict (see total.go `notes`)
+	for k, v := range obsNotes {
+		r.Count("observation:"+k, v)
+	}
+	r.Set("decoder_observations_first_input", obsWit)
 }
 
 // runShard runs one shard in a child process, restarting it behind every input that killed it.
